@@ -447,14 +447,18 @@ Fixpoint cbs_eqb (a b : list cb) : bool :=
   | _, _ => false
   end.
 
-(* case = (graph, client mode, glyph id, (result class observed (5 = no colour glyph), callbacks observed)) *)
+(* observation = (client mode, glyph id, (result class observed (5 = no colour glyph), callbacks observed)) *)
 Definition run_case (g : graph) (mode gid : N) : N * list cb :=
   match paint (inst_of g) (oracle_of mode) gid with
   | NoGlyph => (5%N, [])
   | Painted r s => (class_of r, s_out s)
   end.
 
-Definition check_case (c : graph * N * N * (N * list cb)) : bool :=
-  let '(g, mode, gid, (cls, cbs)) := c in
+Definition check_sub (g : graph) (c : N * N * (N * list cb)) : bool :=
+  let '(mode, gid, (cls, cbs)) := c in
   let '(mcls, mcbs) := run_case g mode gid in
   N.eqb cls mcls && cbs_eqb cbs mcbs.
+
+(* one graph, several (client mode, glyph id, (class, callbacks)) observations *)
+Definition check_case (c : graph * list (N * N * (N * list cb))) : bool :=
+  forallb (check_sub (fst c)) (snd c).
